@@ -24,6 +24,8 @@ type History struct {
 	Steps  [][]Edit     `json:"steps"` // each step: edits applied before the next sync
 	Differ int          `json:"differ"`
 	Mem    bool         `json:"mem,omitempty"`
+	// FilterUID: every sync runs with a receiver-side Filter that rewrites ownership
+	FilterUID bool `json:"filteruid,omitempty"`
 }
 
 func (h History) String() string {
@@ -31,7 +33,7 @@ func (h History) String() string {
 	for _, st := range h.Steps {
 		s = append(s, describeEdits(st))
 	}
-	return fmt.Sprintf("base=%s; sync; %s; sync (differ=%d mem=%v)", h.Base, strings.Join(s, "; sync; "), h.Differ, h.Mem)
+	return fmt.Sprintf("base=%s; sync; %s; sync (differ=%d mem=%v filteruid=%v)", h.Base, strings.Join(s, "; sync; "), h.Differ, h.Mem, h.FilterUID)
 }
 
 // runHistory plays a history; it returns the observation of the last sync and the
@@ -55,7 +57,7 @@ func runHistory(h History, notify bool) (*SyncObs, fsmodel.Tree, string) {
 		}
 		return o, ""
 	}
-	if _, e := sync(SyncCase{Mem: h.Mem}); e != "" {
+	if _, e := sync(SyncCase{Mem: h.Mem, FilterUID: h.FilterUID}); e != "" {
 		return nil, nil, "initial sync: " + e
 	}
 	var last *SyncObs
@@ -67,7 +69,7 @@ func runHistory(h History, notify bool) (*SyncObs, fsmodel.Tree, string) {
 			}
 			cur = n
 		}
-		c := SyncCase{Mem: h.Mem}
+		c := SyncCase{Mem: h.Mem, FilterUID: h.FilterUID}
 		if i == len(h.Steps)-1 {
 			c.Differ, c.Notify = h.Differ, notify
 		}
